@@ -16,7 +16,7 @@ DRIVER = 'Serialize'
 REQUIRED_THEOREMS = [
     'plain', 'idempotent', 'rejects', 'accepts', 'keeps_structure', 'roundtrip_partial',
     'plain_unchanged', 'plain_roundtrip_exact', 'hook_coherent', 'regex_source_is_modelled',
-    'dispatch_unique', 'tag_match_iff', 'bare_unit_nan_prefix_fails', 'token_pint_ok', 'badkeys_sound',
+    'dispatch_unique', 'tag_match_iff', 'bare_unit_nan_prefix_fails', 'nan_reciprocal_unit_fails', 'token_pint_ok', 'badkeys_sound',
 ]
 ANCHORS = [
     ('vivarium/core/serialize.py', [
@@ -49,7 +49,8 @@ ASSUMPTIONS = [
     'candidate finding, see notes/C14.md)',
     'bare Unit values whose name starts with "nan" (nanometer, nanogram…) are avoided by the '
     'generator except in one corpus case classified as candidate finding (deserialize raises)',
-    'unit strings starting with "1 /" are checked by the oracle only (pint prints `5 / second`)',
+    'a nan magnitude with a unit printed `1 / x` is avoided by the generator except in one corpus '
+    'case recorded as candidate finding (deserialize raises)',
 ]
 CASE_TIMEOUT = 30.0
 
@@ -733,8 +734,7 @@ def _hook_nodes(spec):
         if len(out) >= 6:
             return
         k = _kind(s)
-        recip = (k == 'q' and s['q'][1].startswith('1 /')) or (k == 'qa' and s['qa'][2].startswith('1 /'))
-        if k in HOOK_KINDS and not (k == 'x' and s['x'] == 'surrogate') and not recip:
+        if k in HOOK_KINDS and not (k == 'x' and s['x'] == 'surrogate'):
             out.append((s, path))
         if k in ('l', 't'):
             for i, c in enumerate(s[k]):
@@ -1070,13 +1070,7 @@ def deser_comparable(spec):
         k = _kind(s)
         if k in ('s', 'ns') and _TAG_RE.fullmatch(s[k]) and s[k] not in good:
             return False
-        if k == 'u' and (s['u'].startswith('nan') or s['u'].startswith('1 /')):
-            return False
-        if k == 'q' and s['q'][1].startswith('1 /'):
-            return False
-        if k == 'qa' and s['qa'][2].startswith('1 /'):
-            return False
-    return True
+    return not _has_nan_unit(spec)      # candidate findings A / B: real pint raises there
 
 
 def model_requests(case):
@@ -1167,11 +1161,7 @@ def compare(case, impl, model):
     diffs = []
     ms = _canon_res(spec, _subst(model['ser'], reprs), 'a', 'o')
     is_ = _canon_res(spec, io['ser'], 'a', 'o')
-    recip = any((_kind(x) == 'q' and x['q'][1].startswith('1 /')) or
-                (_kind(x) == 'qa' and x['qa'][2].startswith('1 /')) for x in walk(spec))
-    if recip and 'ok' in ms and 'ok' in is_:
-        pass    # pint folds the magnitude into `1 / x` units (`5 / second`): oracle only (see showQ)
-    elif ms != is_:
+    if ms != is_:
         diffs.append(f'serialize: impl={_short(is_)} model={_short(ms)}')
     bi, bm = io.get('badkeys'), model['badkeys']
     if not isinstance(bi, list) or sorted(map(json.dumps, bi)) != sorted(map(json.dumps, bm)):
